@@ -13,7 +13,7 @@
 (* streams, return values of the public helpers; and the optima found by   *)
 (* the exhaustive ExecOpt search) equals the table entry.                  *)
 (***************************************************************************)
-EXTENDS Integers, Sequences, FiniteSets, TLC, Json, IOUtils
+EXTENDS GWForm, Sequences, FiniteSets, TLC, Json, IOUtils
 
 Claims == JsonDeserialize(IOEnv.CLAIMS_FILE)   \* sequence of [kind, n, s, v]
 NMax == atoi(IOEnv.OPT_NMAX)
@@ -21,35 +21,18 @@ NMax == atoi(IOEnv.OPT_NMAX)
 VARIABLES gw, bin, mix
 vars == <<gw, bin, mix>>
 
-Min(x, y) == IF x <= y THEN x ELSE y
-Cl(n, s) == Min(s, n - 1)
+Cl(n, s) == GMin(s, n - 1)
 SetMin(S) == CHOOSE m \in S : \A x \in S : m <= x
-Big == 1000000000
-
-(* beta(s, t) = C(s + t, s), computed incrementally while it stays below a bound *)
-RECURSIVE BetaUpTo(_, _, _, _, _)
-\* smallest t with beta(s,t) >= n, returned with beta(s+1, t-1):  <<t, beta(s+1,t-1)>>
-\* cur = beta(s, t), nxt = beta(s+1, t-1)
-BetaUpTo(n, s, t, cur, nxt) ==
-  IF cur >= n THEN <<t, nxt>>
-  ELSE BetaUpTo(n, s, t + 1, (cur * (s + t + 1)) \div (t + 1),
-                IF t = 0 THEN 1 ELSE (nxt * (s + 1 + t)) \div t)
-
-(* total = n + t*n - beta(s+1, t-1)  with beta(s,t-1) < n <= beta(s,t) *)
-GW(n, s) ==
-  IF n = 1 THEN 1
-  ELSE IF s < 1 THEN Big
-  ELSE LET r == BetaUpTo(n, s, 0, 1, 0) IN n + r[1] * n - r[2]
 
 BinEntry(n, s, tab) ==
   IF n = 1 THEN 1
-  ELSE IF s < 1 THEN Big
+  ELSE IF s < 1 THEN GBig
   ELSE IF s = 1 THEN n + (n * (n - 1)) \div 2
   ELSE n + SetMin({i + (tab[i][Cl(i, s)] - i) + (tab[n - i][Cl(n - i, s - 1)] - (n - i)) : i \in 1..(n - 1)})
 
 MixEntry(n, s, tab) ==
   IF n = 1 THEN 1
-  ELSE IF s < 1 THEN Big
+  ELSE IF s < 1 THEN GBig
   ELSE IF n <= s + 1 THEN n
   ELSE IF s = 1 THEN (n * (n + 1)) \div 2 - 1
   ELSE SetMin({i + tab[i][Cl(i, s)] + tab[n - i][Cl(n - i, s - 1)] : i \in 2..(n - 1)}
